@@ -30,6 +30,8 @@ mod panic;
 
 #[cfg(compio_verif)]
 pub mod verif;
+#[cfg(compio_verif)]
+pub mod verif_mask;
 
 mod key;
 pub use key::Key;
